@@ -62,6 +62,8 @@ pub struct VerifiedChunk {
 impl VerifiedChunk {
     /// Create a new verified chunk by calculating a hash of it.
     pub fn new(chunk: Chunk) -> Self {
+        #[cfg(feature = "verif-hooks")]
+        let _span = crate::verif_hooks::span("chunk.hash", chunk.data());
         Self {
             hash_sum: HashSum::b2_digest(chunk.data()),
             chunk,
@@ -109,6 +111,8 @@ impl CompressedChunk {
         compression: Option<Compression>,
         chunk: Chunk,
     ) -> Result<CompressedChunk, CompressionError> {
+        #[cfg(feature = "verif-hooks")]
+        let _span = crate::verif_hooks::span("chunk.compress", chunk.data());
         if let Some(compression) = compression {
             Ok(CompressedChunk {
                 source_size: chunk.len(),
@@ -135,6 +139,8 @@ impl CompressedChunk {
     }
     /// Decompress the chunk.
     pub fn decompress(self) -> Result<Chunk, CompressionError> {
+        #[cfg(feature = "verif-hooks")]
+        let _span = crate::verif_hooks::span("chunk.decompress", self.data());
         Ok(match self.compression {
             Some(compression) => Chunk::from(compression.decompress(self.data, self.source_size)?),
             // Chunk not compressed.
@@ -205,6 +211,8 @@ impl ArchiveChunk {
     /// Results in a verified chunk or an error if the chunk hash sum doesn't
     /// match with the expected one.
     pub fn verify(self) -> Result<VerifiedChunk, HashSumMismatchError> {
+        #[cfg(feature = "verif-hooks")]
+        let _span = crate::verif_hooks::span("chunk.verify", self.chunk.data());
         let mut hash_sum = HashSum::b2_digest(self.chunk.data());
         hash_sum.truncate(self.expected_hash.len());
         if hash_sum != self.expected_hash {
